@@ -86,8 +86,16 @@ func (r *Source) Read(p []byte) (int, error) {
 				return 0, ErrFatal
 			}
 			if r.active.Silence < 0 || time.Now().Before(r.silentTo) || !r.active.fired {
+				was := r.active.fired
 				r.active.fired = true
 				r.pollCost()
+				if was && r.active.Silence >= 0 && !time.Now().Before(r.silentTo) {
+					// the line came back while this read was waiting: the read returns
+					// data, not a late "nothing there" (an error result always means the
+					// source is still silent at the moment the caller sees it)
+					r.active = nil
+					continue
+				}
 				r.active.polls++
 				if r.active.Timeout != (r.active.Mixed && r.active.polls%2 == 0) {
 					r.Timeouts++
